@@ -32,8 +32,15 @@ import pymbolic.traits as traits
 class Rational(primitives.Expression):
     def __init__(self, numerator, denominator=1):
         d_unit = traits.traits(denominator).get_unit(denominator)
-        numerator /= d_unit
-        denominator /= d_unit
+        if isinstance(d_unit, int):
+            # the units of the integers are 1 and -1: multiply, so that
+            # integers stay integers (true division makes them floats,
+            # for which no gcd is defined)
+            numerator = numerator * d_unit
+            denominator = denominator * d_unit
+        else:
+            numerator /= d_unit
+            denominator /= d_unit
         self.Numerator = numerator
         self.Denominator = denominator
 
